@@ -151,10 +151,12 @@ def check(ctx):
         for lab in sorted(rows):
             for off in sorted(rows[lab]):
                 raw.append(rows[lab][off])
-        init = [e for e in p.events if e.kind == "store_sub" and isinstance(e.data["index"], TupV) and isinstance(e.data["value"], Vec)]
-        for e in init:
-            raw.append(e.data["value"].gen)
-            raw += [v for _k, (_pos, v) in sorted(e.data["value"].over.items(), key=repr)]
+        from .reservoir import initial_row
+
+        row0 = initial_row(p)
+        if row0 is not None:
+            raw.append(row0.gen)
+            raw += [v for _k, (_pos, v) in sorted(row0.over.items(), key=repr)]
         terms = [norm(t) for t in raw]
         # the scalar may only enter as m_scaled_func(self.pressure_fracface) on the scalar arm, and not at all on the schedule arm
         leftover = any(nf.depends(t, "self.pressure_fracface") for t in (terms if arm else raw))
@@ -190,7 +192,7 @@ def check(ctx):
     for cls in SIM_CLASSES:
         for name in ("recovery_factor", "recovery_factor_interpolator"):
             it3, m, paths = method_paths(ctx, cls, name)
-            probes = _time_probes(m.node)
+            probes = _time_probes(m.node, m.module.tree)
             found = False
             okp = True
             for p in paths:
@@ -254,10 +256,10 @@ def check(ctx):
     ctx.floor("C17", len(ctx.obligs), 14, "shift / schedule / guard obligations")
 
 
-def _time_probes(fnode):
-    """line numbers of try statements whose body reads self.time"""
+def _time_probes(fnode, module_tree=None):
+    """line numbers of try statements (anywhere in the module: the probe may live in a helper) whose body reads self.time"""
     out = set()
-    for n in ast.walk(fnode):
+    for n in ast.walk(module_tree if module_tree is not None else fnode):
         if isinstance(n, ast.Try):
             for st in n.body:
                 for x in ast.walk(st):
